@@ -65,6 +65,8 @@ def gen_cfg(rng: random.Random, allow_none_A: bool = True, n_ok: bool = True) ->
 def est_horizon(spec: Dict[str, Any]) -> float:
     tot = 0.0
     last = 0.0
+    hook_lat = sum(float(hs["lat"]) for mw in spec.get("mws", []) for hs in mw.values()
+                   if isinstance(hs, dict) and isinstance(hs.get("lat"), (int, float)))
     for m in spec.get("msgs", []) + spec.get("client_sends", []):
         last = max(last, m.get("at", 0.0))
         beh = m.get("beh", {})
@@ -84,7 +86,7 @@ def est_horizon(spec: Dict[str, Any]) -> float:
                 d_ = float(tmo)  # the body is cut by its timeout label ...
                 d_ += sum(x for x in b.get("cleanup", []) if isinstance(x, (int, float)))  # ... and winds down
             tot += d_
-        tot += 0.5  # hook / ack / backend latencies
+        tot += 0.5 + hook_lat  # hook / ack / backend latencies
     return last + tot + 0.4 * (len(spec.get("msgs", [])) + 2) + 20.0
 
 
@@ -656,6 +658,11 @@ def gen_c03_spec(rng: random.Random, maxn: int = 40) -> Dict[str, Any]:
                 m["beh"]["dur"] = [rng.choice(["w0.05", "w0.3", "w1.0"])]
     if mw:
         spec["mws"] = [mw]
+        post = [h for h in mw if h != "pre_execute"]
+        if post and spec["cfg"]["W"] is None and rng.random() < 0.5:
+            # a sibling middleware whose hooks of the same kind are slow: they belong to the processing of the message
+            slow = {h: {"async": True, "lat": rng.choice([0.3, 0.3, 1.0]), "style": rng.choice(["async", "async", "awaitable"])} for h in post}
+            spec["mws"] = [slow, mw] if rng.random() < 0.7 else [mw, slow]
     if not A or A < 0:
         spec["cfg"]["threads"] = len(msgs) + 2  # no limit: every sync function may hold a thread at the same time
     spec["horizon"] = est_horizon(spec) + 10 * ((A if A and A > 0 else 2) + 2)
